@@ -350,7 +350,9 @@ def correspond(ctx):
         fails.append(Failure('correspondence', 'controller:model-vs-code',
                              f'dispatch under hostile input: implementation {cases[gi][1]} / model {model_out[-400:]}',
                              {'input': cases[gi][0], 'impl': cases[gi][1]}))
-    return fails
+    # Props/C17E.v is stated about the endpoint model (Endpoint.v over Hdl.v): tied by the endpoint-history correspondence
+    from props import hdl
+    return fails + hdl.tie(ctx)
 
 
 def deviant_session(ctx, label, actions, conf, seed):
@@ -536,7 +538,7 @@ def replay(ctx, obj):
 
 
 CHECK = core.Check(
-    'C17', sc.CLUSTER, 'Props/C17.v', translate=sc.translate, correspond=correspond, oracle=oracle, replay=replay,
+    'C17', sc.CLUSTER, ['Props/C17.v', 'Props/C17E.v'], translate=sc.translate, correspond=correspond, oracle=oracle, replay=replay,
     regressions=regressions, deps=('lib',),
     rule='the real IkeSaController.main_loop is executed (scripted select/sockets) on legitimate sessions with hostile '
          'input before every step at both endpoints: short/random/empty datagrams, the zero-length unknown payload, '
@@ -544,7 +546,7 @@ CHECK = core.Check(
          'datagrams, binary vendor IDs, unknown critical payloads, length-field sweeps, garbage/odd kernel events; plus '
          'an OSError injected at every sendto call and a kernel refusal at every netlink request; every case is '
          'non-trivial; a 5 s watchdog per event detects a wedged loop',
-    trusted_base=sc.TRUSTED + ['blocking in select, socket buffers and wall-clock bounds are not modelled (runtime); '
+    trusted_base=sc.TRUSTED + __import__('props.hdl', fromlist=['TRUSTED']).TRUSTED + ['blocking in select, socket buffers and wall-clock bounds are not modelled (runtime); '
                                'the real loop body is executed with scripted select/socket objects instead'],
     assumptions=['exceptions that are not subclasses of Exception (KeyboardInterrupt, SystemExit, MemoryError) are out '
                  'of scope'],
